@@ -199,6 +199,20 @@ impl<'a> SView<'a> {
                                 }
                             } else {
                                 tracked.insert(*id, i);
+                                // the id was used before by an instance that was read and ended without being
+                                // answered (expired, cancelled, dropped by the application): reuse after anything
+                                // but completion is outside every listed quantifier, and a guard left over from
+                                // the old instance cancels *by id*, so nothing about this id is determined
+                                let reused_unanswered = (0..n).any(|j| {
+                                    j != i
+                                        && run.insts[j].id == *id
+                                        && tl[j].read.is_some()
+                                        && !tl[j].dup_ignored
+                                        && !matches!(tl[j].end, Some(End::Responded { .. }))
+                                });
+                                if reused_unanswered {
+                                    tainted.insert(*id);
+                                }
                                 if tainted.contains(id) {
                                     // an earlier instance with this id had an undetermined fate (and its dropped
                                     // handler cancels by id): nothing about this one is certain either
